@@ -13,7 +13,9 @@ mod c06;
 mod sm2api;
 mod c07;
 mod c08;
+mod c11;
 mod c18;
+mod c19;
 
 use engine::*;
 use std::sync::Arc;
@@ -30,7 +32,9 @@ fn registry(id: &str) -> Option<(&'static str, RunFn, ReplayFn)> {
         "C06" => ("C06", c06::run as RunFn, c06::replay as ReplayFn),
         "C07" => ("C07", c07::run as RunFn, c07::replay as ReplayFn),
         "C08" => ("C08", c08::run as RunFn, c08::replay as ReplayFn),
+        "C11" => ("C11", c11::run as RunFn, c11::replay as ReplayFn),
         "C18" => ("C18", c18::run as RunFn, c18::replay as ReplayFn),
+        "C19" => ("C19", c19::run as RunFn, c19::replay as ReplayFn),
         _ => return None,
     })
 }
@@ -95,6 +99,10 @@ fn main() {
             }
             std::process::exit(1);
         }
+        Some("tool") => match args.get(2).map(|s| s.as_str()) {
+            Some("search-c1") => c19::search_c1_scalars(),
+            _ => eprintln!("unknown tool"),
+        },
         Some("selftest") => {
             match refmodels::selftest::run(&["sm3", "sm4long", "zuc", "sm2", "sm9"]) {
                 Ok(()) => println!("reference self-tests ok"),
